@@ -319,6 +319,12 @@ def run_unit(u, tier):
                     expect_reject(fa, res, None, wrap(mk(precision=p, scale=0)), "decimal-precision-exceeds-size-nested", seen)
             p0 = max(ok_p, 1)
             if base == "bytes" or maxp >= 1:
+                # the well-formed annotation first, then the same numbers spelled as floats (9.0 is not an integer in JSON terms)
+                expect_accept(fa, res, mk(precision=p0, scale=0), "decimal-ok", seen)
+                expect_reject(fa, res, None, mk(precision=float(p0), scale=0), "decimal-precision-integral-float", seen)
+                if p0 >= 2:
+                    expect_accept(fa, res, mk(precision=p0, scale=1), "decimal-ok", seen)
+                    expect_reject(fa, res, None, mk(precision=p0, scale=1.0), "decimal-scale-integral-float", seen)
                 for bad, lab in ((-1, "negative"), (1.5, "fraction"), ("2", "string")):
                     expect_reject(fa, res, None, mk(precision=bad, scale=0), "decimal-precision-" + lab, seen)
                     expect_reject(fa, res, None, mk(precision=p0, scale=bad), "decimal-scale-" + lab, seen)
